@@ -849,11 +849,47 @@ func (c *Ctx) freshParsedLineRule(rule string) {
 				v = op.Sel.States[op.State].Send
 			}
 			n++
-			fc := c.newFresh()
-			ok := fc.deepFresh(v, 0)
-			why := "sent line and everything reachable from it is allocated for this read"
-			if !ok {
-				why = "sent line is not freshly allocated for this read: " + fc.why
+			// a helper that enqueues the line it is given: the line is what its (only static) callers pass
+			vals := []ssa.Value{v}
+			for depth := 0; depth < 3; depth++ {
+				var next []ssa.Value
+				changed := false
+				for _, x := range vals {
+					pr, isP := x.(*ssa.Parameter)
+					pf := (*ssa.Function)(nil)
+					if isP {
+						pf = pr.Parent()
+					}
+					if !isP || pf.Object() == nil || pf.Object().Exported() || addrTaken(pf) || len(c.staticCallers(pf)) == 0 {
+						next = append(next, x)
+						continue
+					}
+					idx := -1
+					for i, q := range pf.Params {
+						if q == pr {
+							idx = i
+						}
+					}
+					for _, cs := range c.staticCallers(pf) {
+						if _, isGo := cs.(*ssa.Go); isGo || idx < 0 || idx >= len(cs.Common().Args) {
+							next = append(next, x)
+							continue
+						}
+						next = append(next, cs.Common().Args[idx])
+						changed = true
+					}
+				}
+				vals = next
+				if !changed {
+					break
+				}
+			}
+			ok, why := true, "sent line and everything reachable from it is allocated for this read"
+			for _, x := range vals {
+				fc := c.newFresh()
+				if !fc.deepFresh(x, 0) {
+					ok, why = false, "sent line is not freshly allocated for this read: "+fc.why
+				}
 			}
 			r.Add(rule, "fresh-line:"+c.FuncKey(fn), c.InstrPos(op.In), c.FuncKey(fn), "the line handed to the event loop is a new object", ok, why)
 		}
@@ -943,4 +979,64 @@ func (c *Ctx) dispatchedLineFrozenRule(rule string) {
 		}
 	}
 	r.Floor(rule, "call sites of Conn.dispatch", n, 3)
+}
+
+// underConstruction: the object whose field the address addr points into is
+// one the enclosing function has just allocated - directly, or because the
+// function is an unexported helper that only ever receives such an object
+// from its static callers (a "fill in the defaults" helper of a constructor).
+func (c *Ctx) underConstruction(addr ssa.Value, fn *ssa.Function, depth int) bool {
+	if c.allOriginsLocalAlloc(addr, fn) {
+		return true
+	}
+	if depth > 3 {
+		return false
+	}
+	base := addr
+	for {
+		if fa, ok := base.(*ssa.FieldAddr); ok {
+			base = fa.X
+			continue
+		}
+		break
+	}
+	var vals []ssa.Value
+	if ph, ok := base.(*ssa.Phi); ok {
+		vals = append(vals, ph.Edges...)
+	} else {
+		vals = []ssa.Value{base}
+	}
+	for _, v := range vals {
+		switch t := v.(type) {
+		case *ssa.Alloc:
+			if t.Parent() != fn {
+				return false
+			}
+		case *ssa.Parameter:
+			if fn.Object() == nil || fn.Object().Exported() || addrTaken(fn) {
+				return false
+			}
+			idx := -1
+			for i, q := range fn.Params {
+				if q == t {
+					idx = i
+				}
+			}
+			sites := c.staticCallers(fn)
+			if idx < 0 || len(sites) == 0 {
+				return false
+			}
+			for _, cs := range sites {
+				if _, isGo := cs.(*ssa.Go); isGo || idx >= len(cs.Common().Args) {
+					return false
+				}
+				if !c.underConstruction(cs.Common().Args[idx], cs.Parent(), depth+1) {
+					return false
+				}
+			}
+		default:
+			return false
+		}
+	}
+	return len(vals) > 0
 }
